@@ -103,6 +103,15 @@ ssa_to_linear = Contract(
                     " lambda x: (len(ids) - 1) if x == prev(ssa) else (prev(where)[x] - (1 if prev(where)[x] > con[0] else 0) - (1 if prev(where)[x] > con[1] else 0)))",
                 )
             },
+            # stepping stones (proved, then used): the two bisections find the
+            # ghost positions, which differ, so after sorting con[0] < con[1]
+            cuts={
+                0: ["ssa_path[t][0] in where and ssa_path[t][1] in where",
+                    "ids[where[ssa_path[t][0]]] == ssa_path[t][0] and ids[where[ssa_path[t][1]]] == ssa_path[t][1]",
+                    "where[ssa_path[t][0]] != where[ssa_path[t][1]]"],
+                1: ["len(con) == 2 and con[0] == where[ssa_path[t][0]] and con[1] == where[ssa_path[t][1]]"],
+                2: ["len(con) == 2 and 0 <= con[0] and con[0] < con[1] and con[1] < len(ids)"],
+            },
             step=[
                 # (stepping stones) both consumed ids were alive, at the ghost positions
                 f"{S0} in prev(where) and {S1} in prev(where)",
